@@ -147,6 +147,11 @@ func InterpolateAtDistance(ax s1.Angle, a, b Point) Point {
 	// necessarily unit length. (We effectively normalize it below.)
 	normal := a.PointCross(b)
 	tangent := normal.Cross(a.Vector)
+	if tangent.Norm() == 0 {
+		// A and B are distinct but so close together that the tangent
+		// underflows: every point of the edge AB rounds to A.
+		return a
+	}
 
 	// Now compute the appropriate linear combination of A and "tangent". With
 	// infinite precision the result would always be unit length, but we
